@@ -60,7 +60,7 @@ pub fn record(id: usize, prop: &str, text: &str, row_lines: Option<Vec<usize>>, 
     };
     json!({
         "ev": "parse", "id": id, "prop": prop, "cs": cs, "lexed": lexed, "tokens": tokens, "res": res, "dump": dump,
-        "spans_ok": spans_ok, "render_ok": render_ok, "has_truth": row_lines.is_some(), "row_lines": row_lines.unwrap_or_default(),
+        "reparse_ok": true, "spans_ok": spans_ok, "render_ok": render_ok, "has_truth": row_lines.is_some(), "row_lines": row_lines.unwrap_or_default(),
         "group": group, "note": note, "msg": msg, "text": text,
     })
 }
@@ -279,6 +279,35 @@ pub fn parsegen(prop: &str, seed: u64, runs: usize) -> Vec<J> {
                     let mut rl = vec![];
                     row_lines_of(&prog, &printed, &mut rl);
                     push(&mut out, prop, &printed.text, Some(rl), g, "layout variant");
+                }
+            }
+        }
+        "C15" => {
+            // determinism: the same text parsed again and again (each HashMap instance has its own hash seed) must give
+            // equal tests with the signals in the same order, every time equal to what the specification says
+            for _ in 0..runs {
+                let s: u64 = top.gen();
+                let mut g = Gen::new(s, Knobs { max_virtuals: 5, p_c: 0.1, p_device: 0.4, bidir: true, max_stmts: 10, ..Knobs::control_flow() });
+                let plan = g.plan();
+                let prog = g.program(&plan);
+                let printed = print_test(&plan.header, &prog, &Layout::random(s));
+                let sigs: Vec<digital_test_runner::Signal> = plan.supplied.iter().map(|x| x.to_real()).collect();
+                let first = ParsedTestCase::from_str(&printed.text).ok();
+                let first_tc = first.clone().and_then(|p| p.with_signals(sigs.clone()).ok());
+                for k in 0..6 {
+                    let mut rl = vec![];
+                    row_lines_of(&prog, &printed, &mut rl);
+                    push(&mut out, prop, &printed.text, Some(rl), 0, "reparse");
+                    let again = ParsedTestCase::from_str(&printed.text).ok();
+                    let again_tc = again.clone().and_then(|p| p.with_signals(sigs.clone()).ok());
+                    let same = again == first
+                        && again_tc == first_tc
+                        && again_tc.as_ref().map(|t| t.signals.iter().map(|x| x.name.clone()).collect::<Vec<_>>()) == first_tc.as_ref().map(|t| t.signals.iter().map(|x| x.name.clone()).collect::<Vec<_>>())
+                        && again_tc.as_ref().map(|t| t.verif_dump()) == first_tc.as_ref().map(|t| t.verif_dump());
+                    if let Some(last) = out.last_mut() {
+                        last["reparse_ok"] = json!(same);
+                        last["note"] = json!(format!("reparse {k}"));
+                    }
                 }
             }
         }
